@@ -79,6 +79,73 @@ class LooksLikeExc(metaclass=MetaTrap):
     __name__ = "ValueError"
 
 
+class Nosy:
+    """A plain object (lazy settings value, ORM column, mock) whose every special method is user code: looking at it closely -
+    printing, comparing, truth-testing, iterating it - runs that code."""
+
+    def __repr__(self) -> str:
+        CALLS.append("Nosy.__repr__")
+        return "<Nosy>"
+
+    def __str__(self) -> str:
+        CALLS.append("Nosy.__str__")
+        return "nosy"
+
+    def __eq__(self, other: Any) -> bool:
+        CALLS.append("Nosy.__eq__")
+        return False
+
+    def __ne__(self, other: Any) -> bool:
+        CALLS.append("Nosy.__ne__")
+        return True
+
+    __hash__ = None  # type: ignore[assignment]
+
+    def __bool__(self) -> bool:
+        CALLS.append("Nosy.__bool__")
+        return True
+
+    def __len__(self) -> int:
+        CALLS.append("Nosy.__len__")
+        return 1
+
+    def __iter__(self) -> Any:
+        CALLS.append("Nosy.__iter__")
+        return iter(())
+
+    def __contains__(self, item: Any) -> bool:
+        CALLS.append("Nosy.__contains__")
+        return False
+
+    def __format__(self, spec: str) -> str:
+        CALLS.append("Nosy.__format__")
+        return "nosy"
+
+    def method(self, *a: Any, **k: Any) -> Any:
+        CALLS.append("Nosy.method")
+
+
+class NosyMeta(type):
+    def __repr__(cls) -> str:
+        CALLS.append("NosyMeta.__repr__")
+        return "<NosyClass>"
+
+    def __eq__(cls, other: Any) -> bool:
+        CALLS.append("NosyMeta.__eq__")
+        return False
+
+    def __hash__(cls) -> int:
+        return 11
+
+    def __bool__(cls) -> bool:
+        CALLS.append("NosyMeta.__bool__")
+        return True
+
+
+class NosyClass(metaclass=NosyMeta):
+    """a class (not an exception) whose metaclass prints / compares with user code"""
+
+
 class GoodExc(Exception):
     pass
 
@@ -100,8 +167,10 @@ def install() -> types.ModuleType:
         partial=functools.partial(_rec("partial"), 1), class_proxy=ClassProxy(), NotExc=NotExc, LooksLikeExc=LooksLikeExc, GoodExc=GoodExc, GoodBase=GoodBase,
         CtorFails=CtorFails, exc_instance=ValueError("i am an instance"), number=5, none=None, builtin_eval=eval, builtin_print=print,
         type_type=type, object_type=object, exc_type_alias=KeyError, sub=sub,
+        nosy=Nosy(), NosyClass=NosyClass,
     ).items():
         setattr(m, name, obj)
+    m.nosy_partial = functools.partial(m.nosy.method, 1)  # type: ignore[attr-defined]
     sub.func = _rec("sub.func")  # type: ignore[attr-defined]
     sub.SubExc = type("SubExc", (LookupError,), {"__module__": MOD + ".sub"})  # type: ignore[attr-defined]
     sys.modules[MOD] = m
